@@ -125,7 +125,8 @@ class FactoryFold:
         self.classes = 0
 
 
-def fold_factories(im: Image) -> FactoryFold:
+def fold_factories(im) -> FactoryFold:
+    """`im` is anything with `.types` (TypesModule) and `.hooks` (HooksModule): an Image or a SiteAnalysis."""
     from .microeval import Interp, Record, ClassRef, ModuleRef, Closure, Raised
     t, h = im.types, im.hooks
     reg = h.functions.get("_register_custom_property_hooks")
